@@ -121,9 +121,9 @@ def _harness_shard(args):
     try:
         p = subprocess.run([HARNESS_BIN, "batch", inp, outp], env=env, stdout=subprocess.PIPE,
                            stderr=subprocess.PIPE, timeout=timeout)
-        ok = p.returncode == 0
+        ok = True if p.returncode == 0 else "crash"
     except subprocess.TimeoutExpired:
-        ok = False
+        ok = "hang"
     results = {}
     if os.path.exists(outp):
         for line in open(outp, errors="replace"):
@@ -154,7 +154,7 @@ def run_harness(cases, workdir, per_case_timeout=10.0):
     redo = []
     for (ok, res), shard in zip(outs, shards):
         results.update(res)
-        if not ok:
+        if ok is not True:
             redo.extend(c for c in shard if c["id"] not in res)
     # cases of a failed shard are run one by one to find the culprit
     if redo:
@@ -165,7 +165,8 @@ def run_harness(cases, workdir, per_case_timeout=10.0):
             if c["id"] in res:
                 results[c["id"]] = res[c["id"]]
             else:
-                results[c["id"]] = [["verdict", "hang" if not ok else "crash"], ["api_verdict", "hang"],
+                kind = ok if ok is not True else "crash"
+                results[c["id"]] = [["verdict", kind], ["api_verdict", kind],
                                     ["asts"], ["files"], ["registry"]]
     return results
 
